@@ -11,11 +11,18 @@ import (
 )
 
 // c10R6: changed TLS material is reloaded. syncSecureServingConfigLocked compares the old and
-// new ClientCAData / KeyData / CertData; on the edge where one of them differs, every path to
-// the publication of the new config passes either a write of the derived material
+// new ClientCAData / KeyData / CertData; whenever one of them differs, every path to the
+// publication of the new config passes either a write of the derived material
 // (certs / clientCA / verifyOptions) or a decision on the length of the new data. A path that
 // publishes the new spec while keeping the old derived material (e.g. the reload gated on
 // key AND cert both changing) serves a replaced certificate until something else changes.
+//
+// The rule is decided by a fact-carrying search (eng.FactReachAfter): the comparison is
+// assumed to report a difference and the paths that are feasible under that assumption are
+// followed from the comparison on — so it does not matter
+// whether the comparison is the condition of an `if`, one operand of a named `a || b`, or
+// sits in a predicate helper; a decision or the publication moved into a helper counts where
+// the helper is called (LiftMust / LiftMay).
 func c10R6(c *eng.Ctx) { c10TLSReload(c, "R6") }
 
 // c10TLSReload is the rule body, registered as C10.R6 and (same obligation, other property) as
@@ -26,28 +33,73 @@ func c10TLSReload(c *eng.Ctx, rule string) {
 	if fn == nil {
 		return
 	}
-	var publish []ssa.Instruction
-	for _, ci := range eng.Calls(fn) {
-		if eng.MethodNameIs(ci, "Store") {
-			r := eng.Receiver(ci)
-			if eng.FieldAddrOf(r, tClusterInfo, "currentSecureServingTLSConfig") || eng.FieldLoadOf(r, tClusterInfo, "currentSecureServingTLSConfig") {
-				publish = append(publish, ci.(ssa.Instruction))
-			}
+	region := c.W.Region(fn)
+	isPublish := func(i ssa.Instruction) bool {
+		ci, ok := i.(ssa.CallInstruction)
+		if !ok || !eng.MethodNameIs(ci, "Store") {
+			return false
 		}
+		r := eng.Receiver(ci)
+		return r != nil && (eng.FieldAddrOf(r, tClusterInfo, "currentSecureServingTLSConfig") || eng.FieldLoadOf(r, tClusterInfo, "currentSecureServingTLSConfig"))
 	}
-	if len(publish) == 0 {
+	nPublish := 0
+	for _, f := range region {
+		eng.Instrs(f, func(i ssa.Instruction) {
+			if isPublish(i) {
+				nPublish++
+			}
+		})
+	}
+	if nPublish == 0 {
 		c.Fail(rule, fn, "publication of the new config", fn.Pos(), "no store to currentSecureServingTLSConfig found")
 		return
 	}
-	isPublish := func(i ssa.Instruction) bool {
-		for _, p := range publish {
-			if i == p {
-				return true
+	data := map[string]bool{"ClientCAData": true, "KeyData": true, "CertData": true}
+	derived := map[string]bool{"certs": true, "clientCA": true, "verifyOptions": true}
+	// lastField names the field a value is read from; a parameter of a helper whose callers are
+	// all known stands for the field every caller passes (AccessPathsUp)
+	lastField := func(v ssa.Value) string {
+		if mi, ok := v.(*ssa.MakeInterface); ok {
+			v = mi.X
+		}
+		name := ""
+		for _, up := range c.W.AccessPathsUp(v) {
+			if len(up.Path) == 0 {
+				return ""
+			}
+			if f := up.Path[len(up.Path)-1]; name == "" || name == f {
+				name = f
+			} else {
+				return ""
+			}
+		}
+		return name
+	}
+	// a condition that looks at the length of the new data: len(x.KeyData) compared with
+	// something, possibly named, negated or combined with another such test
+	var lenTest func(v ssa.Value, depth int) bool
+	lenTest = func(v ssa.Value, depth int) bool {
+		if depth > 4 {
+			return false
+		}
+		switch n := v.(type) {
+		case *ssa.Call:
+			if b, isB := n.Call.Value.(*ssa.Builtin); isB && b.Name() == "len" && len(n.Call.Args) == 1 {
+				return data[lastField(n.Call.Args[0])]
+			}
+		case *ssa.UnOp:
+			return n.Op == token.NOT && lenTest(n.X, depth+1)
+		case *ssa.BinOp:
+			return lenTest(n.X, depth+1) || lenTest(n.Y, depth+1)
+		case *ssa.Phi:
+			for _, e := range n.Edges {
+				if lenTest(e, depth+1) {
+					return true
+				}
 			}
 		}
 		return false
 	}
-	derived := map[string]bool{"certs": true, "clientCA": true, "verifyOptions": true}
 	isDecision := func(i ssa.Instruction) bool {
 		switch x := i.(type) {
 		case *ssa.Store:
@@ -56,74 +108,110 @@ func c10TLSReload(c *eng.Ctx, rule string) {
 				return len(path) > 0 && derived[path[len(path)-1]]
 			}
 		case *ssa.If:
-			r := eng.RelOf(x.Cond, true)
-			for _, v := range []ssa.Value{r.X, r.Y} {
-				if cc, ok := v.(*ssa.Call); ok {
-					if b, isB := cc.Call.Value.(*ssa.Builtin); isB && b.Name() == "len" {
-						_, path := eng.AccessPath(cc.Call.Args[0])
-						if len(path) > 0 {
-							switch path[len(path)-1] {
-							case "ClientCAData", "KeyData", "CertData":
-								return true
-							}
+			return lenTest(x.Cond, 0)
+		}
+		return false
+	}
+	publishes := eng.LiftMay(isPublish)
+	decides := eng.LiftMust(isDecision)
+
+	// an equality test of two values: the (bool) call and the truth value that means "differ"
+	isEqualityCall := func(cc *ssa.Call) bool {
+		return len(eng.Args(cc)) == 2 && (eng.MethodNameIs(cc, "DeepEqual") || eng.IsCall(cc, "reflect.DeepEqual", "bytes.Equal"))
+	}
+	type cmp struct {
+		in      *ssa.Function
+		val     *ssa.Call // boolean value of `in`
+		differs bool      // its truth value when the two sides differ
+		field   string
+		pos     token.Pos
+	}
+	var cmps []cmp
+	for _, f := range region {
+		for _, ci := range eng.Calls(f) {
+			cc, ok := ci.(*ssa.Call)
+			if !ok {
+				continue
+			}
+			if isEqualityCall(cc) {
+				a := eng.Args(cc)
+				if f1, f2 := lastField(a[0]), lastField(a[1]); f1 == f2 && data[f1] {
+					cmps = append(cmps, cmp{f, cc, false, f1, cc.Pos()})
+				}
+				continue
+			}
+			// a same-package predicate over two values (`changed(old.KeyData, new.KeyData)`): the
+			// equality test inside it compares two of its parameters; the fields are those of the
+			// arguments, the polarity is what the predicate returns when the test fails
+			h := cc.Call.StaticCallee()
+			if h == nil || h.Blocks == nil || h.Pkg != f.Pkg || len(h.Params) != len(cc.Call.Args) {
+				continue
+			}
+			if b, isB := cc.Type().Underlying().(*types.Basic); !isB || b.Kind() != types.Bool {
+				continue
+			}
+			for _, hi := range eng.Calls(h) {
+				hc, ok := hi.(*ssa.Call)
+				if !ok || !isEqualityCall(hc) {
+					continue
+				}
+				var fields [2]string
+				for k, ha := range eng.Args(hc) {
+					if mi, isMI := ha.(*ssa.MakeInterface); isMI {
+						ha = mi.X
+					}
+					root, path := eng.AccessPath(ha)
+					p, isP := root.(*ssa.Parameter)
+					if !isP || p.Parent() != h {
+						continue
+					}
+					if len(path) > 0 {
+						fields[k] = path[len(path)-1]
+					} else {
+						fields[k] = lastField(cc.Call.Args[eng.ParamIndex(p)])
+					}
+				}
+				if fields[0] != fields[1] || !data[fields[0]] {
+					continue
+				}
+				// what does h return when the inner test reports a difference?
+				vals := map[bool]bool{}
+				unknown := false
+				eng.FactReachFromEntry(h, eng.FactQuery{Assume: eng.BoolFacts{hc: false}, Target: func(i ssa.Instruction, known eng.KnownFn) bool {
+					if r, isR := i.(*ssa.Return); isR && len(r.Results) == 1 {
+						if b, ok := known(r.Results[0]); ok {
+							vals[b] = true
+						} else {
+							unknown = true
 						}
+					}
+					return false
+				}})
+				if !unknown && len(vals) == 1 {
+					for b := range vals {
+						cmps = append(cmps, cmp{f, cc, b, fields[0], cc.Pos()})
 					}
 				}
 			}
 		}
-		return false
-	}
-	fieldOf := func(v ssa.Value) string {
-		if mi, ok := v.(*ssa.MakeInterface); ok {
-			v = mi.X
-		}
-		_, path := eng.AccessPath(v)
-		if len(path) == 0 {
-			return ""
-		}
-		return path[len(path)-1]
 	}
 	seen := map[string]int{}
-	for _, b := range fn.Blocks {
-		iff, ok := b.Instrs[len(b.Instrs)-1].(*ssa.If)
-		if !ok {
+	for _, k := range cmps {
+		// only comparisons from which the publication can be reached at all take part (a
+		// comparison inside a predicate helper is decided at the helper's call)
+		// (the search starts behind the comparison: the initialisation of the new config from the
+		// old one, which precedes it, is not a reload)
+		if eng.FactReachAfter(k.val, eng.FactQuery{Target: func(i ssa.Instruction, _ eng.KnownFn) bool { return publishes(i) }}) == nil {
 			continue
 		}
-		cond := iff.Cond
-		neg := false
-		for {
-			if u, isU := cond.(*ssa.UnOp); isU && u.Op == token.NOT {
-				cond = u.X
-				neg = !neg
-				continue
-			}
-			break
-		}
-		cc, isCall := cond.(*ssa.Call)
-		if !isCall || !eng.MethodNameIs(cc, "DeepEqual") {
-			continue
-		}
-		a := eng.Args(cc)
-		if len(a) != 2 {
-			continue
-		}
-		f1, f2 := fieldOf(a[0]), fieldOf(a[1])
-		if f1 != f2 {
-			continue
-		}
-		switch f1 {
-		case "ClientCAData", "KeyData", "CertData":
-		default:
-			continue
-		}
-		differs := b.Succs[1]
-		if neg {
-			differs = b.Succs[0]
-		}
-		seen[f1]++
-		x := eng.ReachFromBlock(differs, eng.PathQuery{Target: isPublish, Avoid: isDecision})
-		c.Check(rule, fn, fmt.Sprintf("%s differs ⇒ material reloaded or new data examined", f1), iff.Pos(), x == nil,
-			"the new spec is published while the certificate/CA derived from the old "+f1+" is kept: the gateway keeps serving (or trusting) replaced TLS material for this cluster's names")
+		seen[k.field]++
+		x := eng.FactReachAfter(k.val, eng.FactQuery{
+			Assume: eng.BoolFacts{k.val: k.differs},
+			Target: func(i ssa.Instruction, _ eng.KnownFn) bool { return publishes(i) },
+			Avoid:  decides,
+		})
+		c.Check(rule, fn, fmt.Sprintf("%s differs ⇒ material reloaded or new data examined", k.field), k.pos, x == nil,
+			"the new spec is published while the certificate/CA derived from the old "+k.field+" is kept: the gateway keeps serving (or trusting) replaced TLS material for this cluster's names")
 	}
 	for _, f := range []string{"ClientCAData", "KeyData", "CertData"} {
 		if seen[f] == 0 {
